@@ -227,7 +227,11 @@ CHECKS = {
                 "compared only after the stream is consumed, len(p) of every call compared) and the real ChunkList; random real "
                 "feed() runs, runs of the real binary over a burst-written pipe (fzf -f '' [+s] [--read0] [--tail] "
                 "[--header-lines] [--with-nth], up to several MB, records > 128K) and interactive tmux sessions read through "
-                "--listen are judged by TLC against Records/Searchable.",
+                "--listen are judged by TLC against Records/Searchable. FzfItems.tla (item builder variants of core.Run: plain, --ansi, "
+                "--with-nth with the original record kept for output) states what filter / accept / GET print for an item - the "
+                "record itself whatever the display transformation - and is bound by exported blocks of all short records x "
+                "--with-nth forms x delimiters x --ansi on the batch, streaming and --sync filter paths and in tmux sessions "
+                "(lib/props/c06_items.py).",
         "design_ref": "DESIGN.md §6 C06, §9 F10",
         "note": "Reader/chunk constants are Go compile-time constants, so the exhaustive all-chunkings exploration is on the model "
                 "only; the real code is bound with real constants on TLC-chosen boundary read sizes plus random ones. OS-faithful "
